@@ -483,6 +483,15 @@ M('C12', 'GroupedSite independent branch forgets legs = []', SITE,
   """            # charges are separately conserved
             legs = []""", """            # charges are separately conserved""", 'DEF-before-use')
 
+M('C03', 'from_full transposes the operand in place (original defect)', MPS,
+  "psi = psi.transpose(psi_labels)  # not in place: `psi` may still be the caller's tensor",
+  'psi.itranspose(psi_labels)', 'OWN-param-icall')
+M('C03', 'apply_local_op normalises the labels of the operator in place', MPS,
+  "        else:\n            op = self.shift_Array_unit_cells(op, -num_unit_cells, inplace=False)",
+  "        else:\n            op.iset_leg_labels([str(l) for l in op._labels])\n"
+  "            op = self.shift_Array_unit_cells(op, -num_unit_cells, inplace=False)",
+  'OWN-param-icall')
+
 # ---------------------------------------------------------------- C09
 M('C09', 'roll converts to B form (original defect)', MPS,
   'new_B = [self.get_B(i, form=None) for i in inds]', 'new_B = [self.get_B(i) for i in inds]',
